@@ -43,9 +43,8 @@ add("C08",
     "of its own sample; crowding replaces a parent only by its distance-paired strictly better child. Tied to bingo/selection by "
     "replaying the recorded random draws of real calls through the model (compared inside Coq).",
     "Trusted: Coq kernel; order embedding of fitness/age into Z; np.random.choice on a list picks list[i] for the indices drawn; "
-    "the harness. Not proved: that the truncated tail equals the union of the scans' removal sets (the swap-to-end index "
-    "argument) - that link is covered by the correspondence and by the oracle 'every dropped individual is NaN or dominated by a "
-    "survivor'. Probabilistic variants: membership/count by oracle only. Axiom-free.",
+    "the harness. The swap-to-end index argument (survivors stay in the live prefix) is proved in Proofs/ElitismProofs.v and used for C09; "
+    "the age component of 'dominated by a survivor' across scans is covered by the oracle. Probabilistic variants: membership/count by oracle only. Axiom-free.",
     "Rocq/Coq proof (loop invariants over all tapes) + tape-replay correspondence")
 
 add("C11",
@@ -124,6 +123,20 @@ add("C05",
     "correspondence and by C04. AGraph/local-optimisation islands and serial archipelagos are monitored, not replayed through the "
     "model. Parallel archipelago and predictor island are outside this model. Axiom-free.",
     "Rocq/Coq proof (invariant over all histories and oracles) + phase-trace correspondence + read monitor")
+
+add("C09",
+    "Coq theorems: for the age-fitness selection model (all selection sizes, targets and draws) and for deterministic crowding "
+    "every non-NaN member of the input is matched by a survivor whose fitness is no larger - this needs the index argument that "
+    "individuals not chosen for removal stay inside the shrinking live prefix while removed ones are swapped to the tail "
+    "(swap_removals_survivors) and the per-scan justification of C08; the relation composes over generations, permutations "
+    "(migration, C11) and unions over islands; the hall of fame's first entry bounds every non-NaN key ever offered (from C10). "
+    "Tie: the C08 correspondence is re-run for the covering clause, and real seeded evolutions (islands and serial archipelagos, "
+    "NaN-producing fitness) are monitored generation by generation.",
+    "Trusted: Coq kernel; the C08/C10/C11 ties; C05 for 'candidates carry their true fitness' (deterministic fitness). The "
+    "composition 'one generational step of AgeFitnessEA / GeneralizedCrowdingEA = evaluate, then this selection on parents ++ "
+    "offspring' is read off the code and exercised by the monitor, not re-proved as one model. mu+lambda with tournament selection "
+    "is not elitist and not claimed. Axiom-free.",
+    "Rocq/Coq proof (corollaries over the C08/C10/C11 models) + monitor over real evolutions")
 
 NOT_APPLICABLE = []
 def main():
